@@ -1,5 +1,6 @@
 import Infretis.Lemmas.RepexC05Count
 import Infretis.Lemmas.RepexC05Load
+import Infretis.Lemmas.RepexC03RRestore
 import Infretis.Lemmas.RepexC05Family
 /-!
 # C05 — the sampler never stalls: a job can always be drawn, sorting terminates
@@ -422,6 +423,22 @@ example : Reachable (exAt 3) ∧ EvOk (exAt 3) (.step 0 .acc [[1], [1, 1, 0]] { 
 example : sortStep { exS0 with toinitiate := -1, W := [[1,0,0,0],[0,1,1,0],[0,1,0,0],[0,0,0,0]] }
       = .ok (some { exS0 with toinitiate := -1, W := [[1,0,0,0],[0,1,0,0],[0,1,1,0],[0,0,0,0]],
                                trajs := [some 0, some 2, some 1, none] }) := by
+  decide +kernel
+
+/-- a crafted state with three idle slots whose diagonal weight is zero (`[0-]` held by a job): the
+    rows of the four plus slots are cyclically shifted; the loop needs three swaps (measure `mu = 8`) -/
+def exSort6 : St := { blank 6 2 50 0 9 0 [[-1, -1]] [[0], [0], [0], [0], [0]] false [] with
+  toinitiate := -1,
+  W := [[1,0,0,0,0,0],[0,1,1,1,1,0],[0,1,0,0,0,0],[0,2,2,0,0,0],[0,1,1,1,0,0],[0,0,0,0,0,0]],
+  trajs := [some 0, some 4, some 1, some 2, some 3, none],
+  locks := [true, false, false, false, false, true] }
+
+example : mu exSort6 = 8 ∧
+    (match sortTrajstate (sortFuel exSort6) exSort6 with
+     | .ok (s', k) => (s'.W, s'.trajs, s'.locks, k)
+     | .error _ => ([], [], [], 99))
+    = ([[1,0,0,0,0,0],[0,1,0,0,0,0],[0,2,2,0,0,0],[0,1,1,1,0,0],[0,1,1,1,1,0],[0,0,0,0,0,0]],
+       [some 0, some 1, some 2, some 3, some 4, none], [true, false, false, false, false, true], 3) := by
   decide +kernel
 
 /-! ## C. Live paths are distinct, path numbers are never reused -/
